@@ -177,10 +177,11 @@ func refSortIPList(l string) string {
 	return strings.Join(out, ";")
 }
 
-var hosts = []string{"a", "a.b.test", "A.B.Test", "1.2.3.4", "::1", "none.test", "multi.test", "v6only.test", "b.test", "x.a.b.test"}
+var hosts = []string{"a", "a.b.test", "A.B.Test", "1.2.3.4", "::1", "none.test", "multi.test", "v6only.test", "b.test", "x.a.b.test", "ab.test"}
 var domains = []string{".test", ".b.test", "b.test", "test", ".Test", "a.b.test", "x.a.b.test", ""}
 var hostdoms = []string{"a.b.test", "a", "a.c.test", "ab.test", "A.b.test"}
-var globs = []string{"*", "a*", "*.test", "a.?.test", "a.b.test", "?", "*.b.*", "a.b.tes", "*a*b*", "??????", "A.*", "*.test*", "a.b.test?", ""}
+// (the list contains pairs in which one pattern is what a glob-to-regexp translation of the other looks like: a* / a.* , a? / a.)
+var globs = []string{"*", "a*", "*.test", "a.?.test", "a.b.test", "?", "*.b.*", "a.b.tes", "*a*b*", "??????", "A.*", "*.test*", "a.b.test?", "", "a.*", "a?", "a.", "a.*test"}
 var nets = [][2]string{{"1.2.0.0", "255.255.0.0"}, {"1.2.3.4", "255.255.255.255"}, {"0.0.0.0", "0.0.0.0"}, {"10.0.0.0", "255.0.0.0"}, {"1.2.3.5", "255.255.255.254"}, {"9.9.9.0", "255.255.255.0"}, {"1.2.3.4", "255.0.255.0"}}
 var cidrs = []string{"1.2.0.0/16", "1.2.3.4/32", "0.0.0.0/0", "::/0", "::1/128", "2001:db8::/32", "10.0.0.0/8", "1.2.3.9/24", "::ffff:1.2.0.0/112", "garbage", "1.2.3.4"}
 var ipsForEx = []string{"1.2.3.4", "::1", "2001:db8::5", "10.9.8.7", "a.b.test", "999.1.1.1", ""}
@@ -300,16 +301,28 @@ func dnsCases() []helperCase {
 	var out []helperCase
 	for _, c := range helperCases() {
 		name := strings.SplitN(c.expr, "(", 2)[0]
+		// the pure string helpers take part with three hosts (their answers could depend on history if an
+		// implementation memoised anything - compiled patterns, split names - under an incomplete key)
+		pureHost := strings.Contains(c.expr, `("a",`) || strings.Contains(c.expr, `("a.b.test",`) || strings.Contains(c.expr, `("ab.test",`)
 		switch name {
 		case "dnsResolve", "dnsResolveEx", "isResolvable", "isResolvableEx":
 		case "isInNet":
 			if !strings.Contains(c.expr, `"255.255.0.0"`) && !strings.Contains(c.expr, `"255.0.0.0"`) && !strings.Contains(c.expr, `"255.255.255.0"`) {
 				continue
 			}
+		case "shExpMatch", "dnsDomainIs", "localHostOrDomainIs":
+			if !pureHost {
+				continue
+			}
+			out = append(out, c)
+			continue
+		case "sortIpAddressList":
+			out = append(out, c)
+			continue
 		default:
 			continue
 		}
-		if strings.Contains(c.expr, `"A.B.Test"`) || strings.Contains(c.expr, `"x.a.b.test"`) || strings.Contains(c.expr, `"b.test"`) {
+		if strings.Contains(c.expr, `"A.B.Test"`) || strings.Contains(c.expr, `"x.a.b.test"`) || strings.Contains(c.expr, `"b.test"`) || strings.Contains(c.expr, `"ab.test"`) {
 			continue
 		}
 		out = append(out, c)
@@ -748,7 +761,7 @@ func schedScenario(t *testing.T, x *explore.X) {
 
 func TestC14(t *testing.T) {
 	s := explore.NewSuite(t, "C14", "model_checking",
-		"(helpers) every predefined helper x every argument tuple of its alphabet (10 hosts incl. case variants, IPv4/IPv6 literals, unresolvable and multi-address names; 8 domains; 5 host-domain pairs; 14 glob patterns of literals . * ?; 7 dotted net/mask pairs; 11 CIDRs x 7 addresses; 9 address lists) with scripted DNS and interface addresses, compared with a reference evaluator; (helper-sequences) every sequence of 2 (quick) / 3 (thorough) resolver-consulting helper calls (dnsResolve, dnsResolveEx, isResolvable, isResolvableEx, isInNet over 7 hosts incl. dual-stack and IPv6-only names) inside ONE evaluation and in consecutive evaluations of one resolver, each answer compared with the reference for that call alone (helpers are functions of their arguments); (result) 14 return expressions x 6 entry-point shapes; (trees) every decision tree if(c1){if([!]c2) L1; L2} L3 over 8 conditions and 4 leaves (quick: leaves fixed per position) evaluated on 10 hosts; (lists) every result list of <= 2 (quick) / 3 (thorough) entries from 16 well-formed and malformed entries through pac.Proxies.All/First/URL; (pool) 2-3 concurrent FindProxyForURL callers through ProxyResolverPool, each blocked inside dnsResolve, released in EVERY order (states = release histories), answers compared with the sequential ones; (pool-interleavings) sync.Pool of pool.go replaced at build time by a deterministic shim, 2-3 scheduler threads x 1-2 rounds, every interleaving of Get / evaluate / dnsResolve / Put with at most 2 (quick) / 3 (thorough) preemptions")
+		"(helpers) every predefined helper x every argument tuple of its alphabet (11 hosts incl. case variants, IPv4/IPv6 literals, unresolvable and multi-address names; 8 domains; 5 host-domain pairs; 18 glob patterns of literals . * ?; 7 dotted net/mask pairs; 11 CIDRs x 7 addresses; 9 address lists) with scripted DNS and interface addresses, compared with a reference evaluator; (helper-sequences) every sequence of 2 helper calls (quick and thorough; thorough adds every sequence of 3 resolver-consulting calls) out of the resolver-consulting helpers (dnsResolve, dnsResolveEx, isResolvable, isResolvableEx, isInNet over 7 hosts incl. dual-stack and IPv6-only names) and the pure string helpers (shExpMatch over 18 patterns incl. pairs where one looks like the regexp translation of the other, dnsDomainIs, localHostOrDomainIs on 3 hosts, sortIpAddressList) inside ONE evaluation and in consecutive evaluations of one resolver, each answer compared with the reference for that call alone (helpers are functions of their arguments); (result) 14 return expressions x 6 entry-point shapes; (trees) every decision tree if(c1){if([!]c2) L1; L2} L3 over 8 conditions and 4 leaves (quick: leaves fixed per position) evaluated on 10 hosts; (lists) every result list of <= 2 (quick) / 3 (thorough) entries from 16 well-formed and malformed entries through pac.Proxies.All/First/URL; (pool) 2-3 concurrent FindProxyForURL callers through ProxyResolverPool, each blocked inside dnsResolve, released in EVERY order (states = release histories), answers compared with the sequential ones; (pool-interleavings) sync.Pool of pool.go replaced at build time by a deterministic shim, 2-3 scheduler threads x 1-2 rounds, every interleaving of Get / evaluate / dnsResolve / Put with at most 2 (quick) / 3 (thorough) preemptions")
 	s.Assume = []string{"reference helper semantics: Netscape PAC text / Mozilla ascii_pac_utils.js / Chromium on the domain where they agree (see DESIGN.md)", "goja executes the JavaScript; the harness scripts DNS through the package's testingLookupIP seam"}
 	s.Add(explore.Scenario{Name: "helpers", Run: helperScenario})
 	s.Add(explore.Scenario{Name: "my-ip", Run: myIPScenario})
